@@ -105,12 +105,13 @@ PROPERTIES = {
     },
     "C10": {
         "title": "cursor API enumerates the interval in both directions",
-        "jobs": [{"bin": "e_scan", "args": ["iscan"], "shards": 8},
+        "jobs": [{"bin": "e_scan", "args": ["iscan"], "shards": 8}, {"bin": "e_scan", "args": ["gap"], "shards": 12},
                  {"bin": "h_tree", "args": ["iscanc", "--oracle", "scan+phantom"], "shards": 16}],
         "accept": r"iscan:|phantom:|crash|deadlock|livelock",
         "deadline": {"quick": 180, "thorough": 1500},
         "rule": "sequential sentence: exhaustive product of the C03 domain x direction x early_abort through iscan_open/iscan_next/full_key(); "
-                "concurrent sentence: " + E1_RULE,
+                "pauses: (tree, direction, early_abort, pause position, one complete put/remove in the pause) exhaustively, stable keys must still be "
+                "produced in order and with early_abort a modified node under the cursor must be reported; concurrent sentence: " + E1_RULE,
         "assumptions": SC_ASSUME,
     },
     "C11": {
